@@ -1,7 +1,7 @@
 """C02 — frontend calls reach the backend handler with identical arguments and files."""
 from .fe import FeFamily
 
-PROPS_MODULES = ["C02", "C02Reach", "FrontendOps"]
+PROPS_MODULES = ["C02", "C02Reach", "FrontendOps", "Ctors"]
 RULE = ("family `fe`: sessions of the real Frontend (negotiation prefix + 1..6 API calls with lattice/random arguments, every "
         "operation of the API, NEED_REPLY on/off, maximum queue counts 0..0x8000) against the real BackendReqHandler with the "
         "recording handler (srv mode: handler log with fstat identity of every received file) and against the raw peer (peer mode: "
